@@ -4,10 +4,10 @@
 use super::*;
 include!("/verif/kani/common.rs");
 
-#[cfg(not(verif_pdu_244))]
+#[cfg(not(verif_thorough))]
 const PDU_MAX: usize = 4;
-#[cfg(verif_pdu_244)]
-const PDU_MAX: usize = 244;
+#[cfg(verif_thorough)]
+const PDU_MAX: usize = 32;
 const DIAG_BUF: usize = 4;
 const OFF_PROBE: usize = 9;
 
@@ -70,6 +70,8 @@ fn any_peripheral<'a>(b: &'a mut Bufs, state: PeripheralState) -> Peripheral<'a>
     }
     p
 }
+
+pub(crate) fn vk_set_address(p: &mut Peripheral, a: u8) { p.address = a; }
 
 struct Snap { state: PeripheralState, retry: u8, fcb: crate::fdl::FrameCountBit, diag_needed: bool, addr: u8, diag: Option<DiagnosticsInfo> }
 fn snap(p: &Peripheral) -> Snap { Snap { state: p.state, retry: p.retry_count, fcb: p.fcb, diag_needed: p.diag_needed, addr: p.address, diag: p.diag.clone() } }
